@@ -358,7 +358,9 @@ func genConc(r *core.Rng, tr *Trace, tier string) *Trace {
 		var prog []Op
 		for i := 0; i < n; i++ {
 			k := keys[r.Intn(nk)]
-			switch r.Pick([]int{5, 2, 5, 2}) {
+			switch r.Pick([]int{5, 2, 5, 2, 2}) {
+			case 4:
+				prog = append(prog, Op{K: "write"})
 			case 0:
 				prog = append(prog, Op{K: "get", Key: hs(k)})
 			case 1:
